@@ -87,6 +87,7 @@ typedef std::vector<std::string> Toks;
 #include "drv_enc.inc"
 #include "drv_time.inc"
 #include "drv_dec.inc"
+#include "drv_val.inc"
 #include "drv_more.inc"
 
 int main(int argc, char** argv) {
@@ -103,6 +104,7 @@ int main(int argc, char** argv) {
             else if (c == "E") cmd_enc(t);
             else if (c == "T") cmd_time(t);
             else if (c == "D") cmd_dec(t);
+            else if (c == "S") cmd_struct(t);
             else if (!cmd_more(t)) OUT("? unknown command %s", c.c_str());
         }
         catch (std::exception& e) { OUT("throw %s", classify(e)); }
